@@ -81,8 +81,8 @@ PROPS = {
     'C04': {
         'lean': ['Purr.Props.C04'],
         'suites': [
-            {'name': 'read', 'fields': ['V'], 'nontrivial': nontrivial_read},
-            {'name': 'atom', 'fields': ['V', 'EV'], 'nontrivial': nontrivial_read},
+            {'name': 'read', 'fields': ['V', 'G'], 'nontrivial': nontrivial_read},
+            {'name': 'atom', 'fields': ['V', 'G', 'EV'], 'nontrivial': nontrivial_read},
         ],
         'rule': 'read: corpus, every string <= 4 over a 14-letter SMILES alphabet, <= 6 over 6 letters, <= 5 over 8 bracket letters (thorough one '
                 'longer), grammar-directed random strings and single-character mutations, multi-byte characters; atom: every member of each finite '
@@ -93,8 +93,8 @@ PROPS = {
     'C05': {
         'lean': ['Purr.Props.C05'],
         'suites': [
-            {'name': 'read', 'fields': ['V'], 'nontrivial': lambda rq, resp: not resp.startswith('ok')},
-            {'name': 'atom', 'fields': ['V'], 'nontrivial': lambda rq, resp: not resp.startswith('ok')},
+            {'name': 'read', 'fields': ['V', 'G'], 'nontrivial': lambda rq, resp: not resp.startswith('ok')},
+            {'name': 'atom', 'fields': ['V', 'G'], 'nontrivial': lambda rq, resp: not resp.startswith('ok')},
         ],
         'rule': 'the same string sets as C04; only the verdict (Character(i) / EndOfLine) is compared. non-trivial = refused strings',
         'assumptions': ASSUME_COMMON,
